@@ -61,7 +61,9 @@ RULE = (
     "are drawn from the boundary set {None, 0, s-1, s, s+1, huge} for every measured size s (buffer size, framed size, "
     "inline body, pointer body, each cumulative prefix of body and uploads) x threshold {0, buf-1, buf, buf+1, huge} x "
     "storage {no external config, config without storage, storage, storage+zstd, storage+gzip}.  A case is distinct by "
-    "(scenario, configuration); non-trivial when at least one cap is set."
+    "(scenario, configuration); non-trivial when at least one cap is set.  thorough adds exhaustive sweeps: every external "
+    "cap from buf-2 to framed+2 and every wire cap from pointer-body-2 to inline-body+2 for a canonical unary and exchange "
+    "payload, every external cap up to the total framed size and every wire cap up to the total body of a 3-batch producer."
 )
 PARTIAL = [
     "Arrow sizes themselves (how large a batch serialises) are measured, not derived",
@@ -727,6 +729,37 @@ def _thaw(real: Any) -> None:
     _state_token.time = real
 
 
+def sweep(ctx: Any, apps: Apps) -> int:
+    """Exhaustive small spaces (thorough tier): *every* cap value across the interesting range of canonical payloads."""
+    n = 0
+    for kind, sc in (("unary", {"n": 1000, "logs": 0, "logsize": 6}), ("exchange", {"n": 1000, "logs": 1, "logsize": 20})):
+        m = _measure(apps, kind, sc)
+        buf = m["r"]["buf"] if kind == "unary" else m["p"]["data"]["buf"]
+        framed = m["framed"] if kind == "unary" else m["p"]["framed"]
+        for ec in range(buf - 2, framed + 3):
+            _run_one(ctx, apps, kind, sc, m, {"wireCap": None, "extCap": ec, "storage": "on", "threshold": 100})
+            n += 1
+        for wc in range(m["ptr_body"] - 2, m["inline_body"] + 3):
+            for storage in ("none", "on"):
+                _run_one(ctx, apps, kind, sc, m, {"wireCap": wc, "extCap": None, "storage": storage, "threshold": 100})
+                n += 1
+        flush(ctx)
+    sc = {"sizes": [1000, 1000, 1000], "logs": 0, "logsize": 6, "fail_at": -1}
+    m = _measure(apps, "producer", sc)
+    its = [it for it in m["iters"] if it["out"]["data"] is not None]
+    total_framed = sum(it["out"]["framed"] for it in its)
+    total_inline = m["pre"] + sum(it["out"]["data"]["wire"] for it in its)
+    for ec in range(its[0]["out"]["data"]["buf"] - 2, total_framed + 3):
+        _run_one(ctx, apps, "producer", sc, m, {"wireCap": HUGE, "extCap": ec, "storage": "on", "threshold": 100})
+        n += 1
+    flush(ctx)
+    for wc in range(max(m["pre"] - 2, 0), total_inline + EOS + 3):
+        _run_one(ctx, apps, "producer", sc, m, {"wireCap": wc, "extCap": None, "storage": "none", "threshold": 100})
+        n += 1
+    flush(ctx)
+    return n
+
+
 def run(ctx: Any) -> None:
     _FAIL_COUNT.clear()
     real_time = _quiet_and_freeze()
@@ -753,6 +786,9 @@ def run(ctx: Any) -> None:
                     _run_one(ctx, apps, kind, sc, m, {**cfg, "loopback": True})
         ctx.note("scenarios", n_sc + len(CORPUS))
         flush(ctx)
+        if ctx.tier == "thorough":
+            ctx.note("exhaustive_cap_sweep_configs", sweep(ctx, apps))
+            ctx.exhaustive = True
     finally:
         PENDING.clear()
         apps.close()
